@@ -32,6 +32,12 @@ SendViaR ==
   \E c \in {Pick(Chains)} : \E d \in {Pick(Chains \ {c})} : \E cl \in {Pick(Calls \cap {"ok", "revert"})} :
      seq[c][d] <= MaxSeq /\ SendVia(c, d, cl)
 
+SendBadCbR ==
+  \E c \in {Pick(Chains)} : \E d \in {Pick(Chains \ {c})} : \E a \in {Pick(Amts)} : seq[c][d] <= MaxSeq /\ SendBadCb(c, d, a)
+SendTwoR ==
+  \E c \in {Pick(Chains)} : \E d1 \in {Pick(Chains \ {c})} : \E d2 \in {Pick(Chains \ {c})} : \E cl \in {Pick(Calls \cap {"ok", "revert"})} :
+     seq[c][d1] <= MaxSeq /\ seq[c][d2] <= MaxSeq /\ SendTwo(c, d1, d2, cl)
+
 CommitR == \E c \in {Pick(Chains)} : Commit(c)
 
 UpdateGood == \E c \in {Pick(Chains)} : \E d \in {Pick(Chains \ {c})} : UpdateClient(c, d, h[d], "relayer")
@@ -109,7 +115,7 @@ AckRev0 ==  /\ Ackable # {} /\ "rev0" \in Proofs
 
 RetoggleR == \E c \in {Pick(Chains)} : \E d \in {Pick(Chains \ {c})} : Retoggle(c, d)
 
-Useful  == CommitUseful \/ UpdateUseful \/ RecvUseful \/ AckUseful \/ SendR \/ SendBackR \/ SendViaR
+Useful  == CommitUseful \/ UpdateUseful \/ RecvUseful \/ AckUseful \/ SendR \/ SendBackR \/ SendViaR \/ SendBadCbR \/ SendTwoR
 Hostile == SendR \/ CommitR \/ UpdateR \/ RecvGood \/ RecvR \/ RecvDup \/ AckGood \/ AckR \/ RecvForged \/ AckForged \/ AckForgedCode \/ AckDup \/ RetoggleR \/ RecvRev0 \/ AckRev0
 
 MInit == Init /\ hist = << >>
